@@ -157,6 +157,10 @@ impl ObjectReceiver {
 
         self.init_blocks_partitioning();
         self.init_object_writer(now);
+        if self.state != State::Receiving {
+            // The writer could not be created or opened
+            return;
+        }
         self.push_from_cache(now);
 
         if self.oti.is_none() {
@@ -557,8 +561,11 @@ impl ObjectReceiver {
         self.state = State::Completed;
 
         if let Some(object_writer) = self.object_writer.as_mut() {
-            object_writer.state = ObjectWriterSessionState::Closed;
-            object_writer.writer.complete(now);
+            // Exactly one terminal call per writer
+            if object_writer.state == ObjectWriterSessionState::Opened {
+                object_writer.state = ObjectWriterSessionState::Closed;
+                object_writer.writer.complete(now);
+            }
         }
 
         // Free space by removing blocks
@@ -584,11 +591,16 @@ impl ObjectReceiver {
         };
 
         if let Some(object_writer) = self.object_writer.as_mut() {
-            object_writer.state = ObjectWriterSessionState::Error;
-            if interrupted {
-                object_writer.writer.interrupted(now);
-            } else {
-                object_writer.writer.error(now);
+            // Exactly one terminal call per writer
+            if object_writer.state == ObjectWriterSessionState::Opened
+                || object_writer.state == ObjectWriterSessionState::Idle
+            {
+                object_writer.state = ObjectWriterSessionState::Error;
+                if interrupted {
+                    object_writer.writer.interrupted(now);
+                } else {
+                    object_writer.writer.error(now);
+                }
             }
         }
 
@@ -606,6 +618,10 @@ impl ObjectReceiver {
         for item in std::mem::take(&mut self.cache) {
             #[cfg(feature = "ypo_flute_verif")]
             crate::verif::tick("objectreceiver::push_from_cache");
+            if self.state != State::Receiving {
+                // Object is completed or in error, the writer is closed: drop what is left
+                break;
+            }
             let pkt = item.to_pkt();
             if self.push_to_block(&pkt, now).is_err() {
                 self.error("Fail to push block", now, false);
